@@ -48,7 +48,7 @@ def main():
         sh(['git', '-C', REPO, 'clean', '-fdq'])
         shutil.rmtree(scratch, ignore_errors=True)
     caught = [p for p, r in res.items() if r['rc'] == 1]
-    json.dump(dict(patch=os.path.relpath(patch, V), checked=pids, caught_by=caught, results=res), open(os.path.join(outdir, 'result.json'), 'w'), indent=1)
+    json.dump(dict(patch=os.path.relpath(patch, V), checked=pids, caught_by=caught, results=res), open(os.path.join(outdir, os.environ.get('RESULT_NAME', 'result.json')), 'w'), indent=1)
     print("caught by:", caught)
 
 main()
